@@ -420,6 +420,9 @@ def _values_match(op, got, ref):
         return False
     if C.eq_nan(got, ref):
         return True
+    if _close(got, ref):
+        # a few ulp: reflected operators evaluate b*a for a*b, and complex multiplication is not bitwise commutative
+        return True
     if op not in TOL_OPS:
         return False
     g = got.astype(complex)
@@ -461,6 +464,15 @@ def _pair_class(x, y):
             return "number"
         return "ndarray" if isinstance(v.v, np.ndarray) else "sequence"
     return ",".join(sorted([c(x), c(y)]))
+
+
+def _group(op):
+    """call-site group used in signatures that fire per code path, not per operator"""
+    if op in ("add", "sub", "mul", "div", "pow"):
+        return "arithmetic-operator"
+    if op in UFUNC_FORM:
+        return "arithmetic-ufunc"
+    return op
 
 
 def _operand_class(x, y):
@@ -520,7 +532,7 @@ def apply(ctx, mesh, live, op, x, y, name, top=True):
         for v in (x, y):
             if v is not None and v.kind == "F" and v.v.vdims is not None and v.v.vdims != _default_vdims(v.v.nvdim):
                 lab = "/custom-labels"
-        ctx.fail(f"{op}/raises-on-valid-expression/{site}/{type(res).__name__}{lab}",
+        ctx.fail(f"{_group(op)}/raises-on-valid-expression/{site}/{type(res).__name__}{lab}",
                  f"{label} ({oc}): {type(res).__name__}: {res}")
         raise engine.Skip()
     ctx.check()
@@ -569,12 +581,12 @@ def apply(ctx, mesh, live, op, x, y, name, top=True):
                     else:
                         ctx.check()
                         if res.vdims != res2.vdims or res.vdim_mapping != res2.vdim_mapping:
-                            ctx.fail(f"{op}/commutativity/labels-or-mapping-differ/{_pair_class(x, y)}",
+                            ctx.fail(f"{_group(op)}/commutativity/labels-or-mapping-differ/{_pair_class(x, y)}",
                                      f"{x.name}∘{y.name}: vdims={res.vdims} mapping={res.vdim_mapping}; "
                                      f"{y.name}∘{x.name}: vdims={res2.vdims} mapping={res2.vdim_mapping}")
                     ctx.check()
                     if not np.array_equal(res.valid, res2.valid):
-                        ctx.fail(f"{op}/commutativity/validity-differs/{_pair_class(x, y)}",
+                        ctx.fail(f"{_group(op)}/commutativity/validity-differs/{_pair_class(x, y)}",
                                  f"{x.name}∘{y.name}: valid={res.valid.ravel().tolist()}; {y.name}∘{x.name}: "
                                  f"valid={res2.valid.ravel().tolist()}")
                     after = [(v.name, v.snap()) for v in live]
@@ -728,7 +740,7 @@ def unit_refuse(ctx):
         what = ""
         if isinstance(res, df.Field):
             what = f" -> Field on {res.mesh.region.pmin.tolist()}..{res.mesh.region.pmax.tolist()} n={res.mesh.n.tolist()} nvdim={res.nvdim}"
-        ctx.fail(f"{op}/{kind}", f"{op}({x.name}, {y.name}) with {diff}: accepted{what}; A on "
+        ctx.fail(f"{_group(op)}/{kind}", f"{op}({x.name}, {y.name}) with {diff}: accepted{what}; A on "
                  f"{mesh.region.pmin.tolist()}..{mesh.region.pmax.tolist()} n={list(n)}, B' on "
                  f"{mesh2.region.pmin.tolist()}..{mesh2.region.pmax.tolist()} n={list(n2)}",
                  instance=ctx.key())
